@@ -36,14 +36,16 @@ CLAIMED = {
             "open reader never returns to path-addressed storage; every backend's remove only unlinks (never locks or mutates a "
             "file's byte buffer)", "5/C06"),
     "C07": ("control-dependence / value-flow of the candidate-source decision on the query matcher; decision-table extraction by path enumeration; influence (data + control) slice",
-            "TWO clauses only: (candidate completeness) the choice of the postings-driven candidate source must consult the query "
+            "THREE clauses only: (candidate completeness) the choice of the postings-driven candidate source must consult the query "
             "matcher; today it does not (recorded known finding); (bool default) the default minimum_should_match is extracted as a "
-            "decision table (0 / 1 / 0) and is independent of must_not. Matching semantics themselves are runtime and not decided", "5/C07"),
+            "decision table (0 / 1 / 0) and is independent of must_not; keyword term keys are case-folded by the same functions on the "
+            "write path and on the query-expansion path. Matching semantics themselves are runtime and not decided", "5/C07"),
     "C08": ("comparator who-may-call, operator-table agreement over sibling range sites, guard on the nested-object recursion",
-            "FOUR clauses only: keyword comparisons go through the one case-insensitive comparator; every comparison with a range "
+            "SIX clauses only: keyword comparisons go through the one case-insensitive comparator; every comparison with a range "
             "bound is >= min / <= max at all sibling sites; the nested recursion binds the iterated object and skips objects of another "
             "parent (loop form or filtered-candidates form); the writer numbers the objects of one nested path in one index space "
-            "per document. Which documents pass a filter tree is runtime and not decided", "5/C08"),
+            "per document; column builders map per-document slots one to one (no dropping / reordering adapter); recursive walkers "
+            "thread the accumulated dotted path. Which documents pass a filter tree is runtime and not decided", "5/C08"),
     "C09": ("ADT-table check of the score algebra, value-flow of tie breakers to their validator, control-dependence of the pruning threshold on the hook parameters",
             "score expression type has only sub-additive nodes with validated tie breakers; the pruning threshold is finite only when "
             "neither a collector nor a score-adjust hook is attached; collection is not gated by the heap; the length floor of the "
@@ -62,26 +64,31 @@ CLAIMED = {
     "C12": ("value-flow from request thresholds to cut-off operations in per-segment finishers and merge arms; sibling accessor agreement",
             "no truncate/filter/retain/take by size/min_doc_count/max_doc_count before all segments are merged (8 sites recorded as known "
             "findings); numeric collectors read i64 and f64 columns alike; every aggregation node that is finished is fed every "
-            "collected document", "5/C12"),
+            "collected document; fast-field column builders keep one slot per document", "5/C12"),
     "C13": ("control-dependence of collector calls on cursor-key comparisons (direct and through accept callbacks), argument provenance of the suggester",
             "documents reach the aggregation collector before the cursor test; executors never prune or gate collection while a collector "
-            "is attached; suggestions depend on req.suggest only", "5/C13"),
+            "is attached; suggestions depend on req.suggest only; every segment's collector is finished and merged whenever it "
+            "exists (not depending on match counters or hits)", "5/C13"),
     "C14": ("dominance of the safety check over writes and the manifest lock; field-class containment between ingestion and the safety check; decision-table extraction by path enumeration",
             "compaction refuses before touching anything; every Schema field list consumed by the segment build is examined by "
             "ensure_compact_safe (thorough tier: also under the vectors feature); the guard's per-field decision table refuses every "
-            "(kind, indexed, fast) combination for which the build writes segment-only data and stored is false", "5/C14"),
+            "(kind, indexed, fast) combination for which the build writes segment-only data and stored is false; the re-ingestion of "
+            "a document is controlled by is_deleted alone", "5/C14"),
     "C15": ("call-graph containment of error origins (commit-time per-document checks ⊆ add-time checks) with dominance over the WAL append",
             "every function in which the segment build can originate a content error is also run by add_document before the WAL "
             "append, with failure returning an error, and the shared checkers run on EVERY accepting path (must, not may); nothing "
-            "fallible runs between append and queue push", "5/C15"),
+            "fallible runs between append and queue push; the schema walkers (resolved fields, analyzer map, collector) thread the same "
+            "accumulated nested path", "5/C15"),
     "C16": ("panic-source enumeration over the call graph with local discharge patterns and a reasoned table; validator dominance",
             "every explicit unwrap/expect/panic!/assert!/unreachable! reachable from IndexReader::search is discharged by a local "
-            "pattern or reasoned; request validators dominate segment execution; front ends enter only through IndexReader::search "
+            "pattern or reasoned; request validators dominate segment execution; front ends enter only through IndexReader::search; "
+            "a parameter that receives an empty slice literal on the search path is never indexed directly "
             "(compiler-inserted checks, allocation, recursion depth, termination not decided)", "5/C16"),
     "C17": ("four-way sibling-table agreement, verify-before-use dominance, codec table inversion, read-site integrity flow, panic-source enumeration",
             "segment file table agrees across write/hash/compare/remove with matching checksum names; checksum comparison dominates "
             "every content read at open and a mismatch is an error; fast-field codec tables inverse and exhaustive; every file read on "
-            "the open path is integrity-checked first (manifest: known finding); pre-verification parsers have no unreasoned panic source",
+            "the open path is integrity-checked first (manifest: known finding); pre-verification parsers have no unreasoned panic source; "
+            "open creates a fresh manifest only when Storage::exists says there is none",
             "5/C17"),
     "C19": ("container-aware value flow of hit indices from the window enumeration, provenance of the re-sort range, per-arm operation table of the score modes",
             "three clauses: every index used to modify or drop a hit is an enumeration of hits.iter().take(window) with window "
